@@ -114,8 +114,15 @@ def work(args):
                 return out
             out["diag"] = [d[1] + ": " + str(d[2])[:160] for d in g.diag()]
             files = g.files()
-            data, _ = impl.parse_doc(doc, cfg=cfg)
-            out["class_names"] = sorted({str(m.class_info.name) for m in data.models} | {str(e.class_info.name) for e in data.enums})
+            data, _cfg = impl.parse_doc(doc, cfg=cfg)
+            from lib import epwork
+            out["bad_param_names"] = sorted({n for _m, _t, ep in epwork.endpoints_of(data, _cfg) for n in epwork.non_identifier_params(ep)})
+            mods = {}
+            _models, _enums = list(data.models), list(data.enums)      # generators: consume once
+            for m in _models + _enums:
+                mods.setdefault(str(m.class_info.module_name), set()).add(str(m.class_info.name))
+            out["module_collisions"] = sorted([k, sorted(v)] for k, v in mods.items() if len(v) > 1)
+            out["class_names"] = sorted({str(m.class_info.name) for m in _models} | {str(e.class_info.name) for e in _enums})
             out["paths"] = sorted(files)
             out["files"] = len(files)
             # the model's prediction of the file set
@@ -196,8 +203,12 @@ def classify(run, r, prob):
         return "class_name_capture", f"schema class name(s) {captured} equal names the module templates bind themselves"
     text = json.dumps(doc, ensure_ascii=False)
     what = prob["what"]
+    if r.get("module_collisions") and prob["kind"] in ("names", "import"):
+        return "module_collision_order", f"classes {r['module_collisions']} share one module file"
+    if r.get("bad_param_names") and prob["kind"] in ("syntax", "import", "names"):
+        return "raw_fallback", f"parameter python names {r['bad_param_names']} are not identifiers"
     gap = has_xid_gap(doc)
-    if gap and prob["kind"] in ("syntax", "import"):
+    if gap and prob["kind"] in ("syntax", "import", "names"):
         return "xid_gap", f"name {gap!r} contains a \\w character outside XID_Continue"
     if prob["kind"] in ("syntaxwarning", "syntax", "import") and ('"const"' in text) and re.search(r"!= \S+and not isinstance", prob.get("line", "") + what) :
         return "const_optional_syntax", what
